@@ -19,7 +19,9 @@ MANIFEST = {
                   "(concurrent_locked) for every number of sender threads, every list of send() calls per thread, every way the kernel "
                   "takes each frame in pieces and every schedule of the threads, with the send lock the wire is an interleaving of whole "
                   "frames, so the receiver delivers every payload of every thread exactly once, byte for byte, and each thread's payloads "
-                  "in that thread's order; (concurrent_unlocked_counterexample) without the lock two 2-piece sends interleave into a "
+                  "in that thread's order; (stream_rekeyed) the session key may be replaced on the live session any number of times: if "
+                  "both ends switch at the same frame boundary every payload is still delivered once, in order, byte for byte (the code "
+                  "copies the key after a frame has been read — regenerated flag); (concurrent_unlocked_counterexample) without the lock two 2-piece sends interleave into a "
                   "stream whose length field announces 16 MiB: session ended, nothing delivered (kernel-evaluated). The reader is modelled "
                   "both as a resumable machine fed arbitrary pieces and as receive_loop over the whole received string; the two are proved "
                   "equal on every byte string and both meet an independent specification (Spec/Frames.lean). Tied to the code by "
@@ -204,6 +206,22 @@ def extract():
         between = send[mlock.end():mwrite.start()]
         holds_lock = between.count("}") <= between.count("{")
 
+    # where are the session-key snapshots taken?
+    i_snap = recv.find("key.bytes = session->key")
+    i_nonce = recv.find("recv_all(session->socket, nonce_buffer.data()")
+    if i_snap < 0 or i_body < 0 or i_nonce < 0:
+        gaps.append("receive_loop: key snapshot / frame reads not located")
+        recv_key_after = True
+    else:
+        recv_key_after = i_snap > i_body and i_snap > i_nonce
+    s_snap = send.find("key.bytes = session->key")
+    s_apply = send.find("ChaCha20::apply")
+    if s_snap < 0 or s_apply < 0:
+        gaps.append("send: key snapshot not located")
+        send_key_in_call = True
+    else:
+        send_key_in_call = s_snap < s_apply
+
     body = f"""/-- `kMaxPayloadSize` -/
 def kMaxPayloadSize : Nat := {vals.get('kMaxPayloadSize', MIB)}
 /-- `kNonceSize = sizeof(crypto::Nonce::bytes)` -/
@@ -227,7 +245,11 @@ def sendCounter : Nat := {send_counter}
 /-- initial block counter passed to `ChaCha20::apply` in `receive_loop` -/
 def recvCounter : Nat := {recv_counter}
 /-- `SessionManager::send` holds `session->send_mutex` (a member of `Session`) around `send_all(session->socket, …)` -/
-def sendHoldsSessionLock : Bool := {'true' if holds_lock else 'false'}"""
+def sendHoldsSessionLock : Bool := {'true' if holds_lock else 'false'}
+/-- in `receive_loop` the snapshot `key.bytes = session->key` is taken after the frame (header and body) has been read -/
+def recvKeySnapshotAfterFrame : Bool := {'true' if recv_key_after else 'false'}
+/-- in `send` the snapshot `key.bytes = session->key` is taken in the call, before the frame is encrypted -/
+def sendKeySnapshotInCall : Bool := {'true' if send_key_in_call else 'false'}"""
     write_generated(PID, body)
     return gaps
 
@@ -403,6 +425,32 @@ def case_concurrent(rng, weight: str) -> Case:
     return Case(ops=ops, tag="concurrent-" + weight)
 
 
+def rkey(rng) -> str:
+    return bytes(rng.getrandbits(8) for _ in range(32)).hex()
+
+
+def case_rekey(rng) -> Case:
+    """the key of the live A<->B session is replaced at both ends (register_peer_key, as key rotation does) while the readers
+    are idle or right after a send; the first frame after each replacement, in each direction, is the interesting one"""
+    ops = [f"open {rng.choice(KEYS)}"]
+    for _ in range(rng.randint(1, 4)):
+        shape = rng.choice(["idle", "after-send", "both-directions", "burst"])
+        if shape == "idle":
+            ops += [f"send ab {rng.choice(SMALL)} {rng.getrandbits(31)}", "drain ab", f"rekey {rkey(rng)}"]
+        elif shape == "after-send":
+            ops += [f"send {rng.choice(['ab', 'ba'])} {rng.choice(SMALL)} {rng.getrandbits(31)}", f"rekey {rkey(rng)}"]
+        elif shape == "both-directions":
+            ops += [f"rekey {rkey(rng)}"]
+        else:
+            ops += [f"burst ab {rng.randint(2, 20)} {rng.getrandbits(24)} 300", f"rekey {rkey(rng)}"]
+        for _ in range(rng.randint(1, 4)):
+            ops.append(f"send {rng.choice(['ab', 'ba'])} {rng.choice(SMALL + [rng.randint(1, 3000)])} {rng.getrandbits(31)}")
+        if rng.random() < 0.5:
+            ops += ["drain ab", "drain ba"]
+    ops += ["drain ab", "drain ba"]
+    return Case(ops=ops, tag="rekey")
+
+
 def case_mixed(rng) -> Case:
     ops = [f"open {rng.choice(KEYS)}", "rawopen"]
     for _ in range(rng.randint(4, 12)):
@@ -429,6 +477,7 @@ def generate(ctx, budget):
         cases.append(case_limit(rng, b))
     cases.append(case_burst(rng, 200))
     cases.append(case_wire(rng, [0, 1, 63, 64, 65, 1000]))
+    cases.append(case_rekey(rng))
     for _ in range(3 if not thorough else 30):
         cases.append(case_concurrent(rng, "medium"))
     if thorough:
@@ -441,7 +490,7 @@ def generate(ctx, budget):
     makers = [(case_sizes, 20), (lambda r: case_limit(r, None), 10), (lambda r: case_burst(r, r.choice([2, 17, 64, 200])), 8),
               (case_raw_valid, 14), (case_raw_oversize, 14), (case_raw_boundary, 4), (case_raw_short, 8), (case_raw_garbage, 8),
               (lambda r: case_wire(r, SMALL[:22] + [rng.randint(0, 5000)]), 10), (case_mixed, 8),
-              (lambda r: case_concurrent(r, "light"), 10)]
+              (lambda r: case_concurrent(r, "light"), 10), (case_rekey, 12)]
     total = sum(w for _, w in makers)
     while len(cases) < budget:
         x = rng.random() * total
@@ -516,7 +565,8 @@ def spec() -> Spec:
              "(nonce, length field, ciphertext) with the nonce passed to the Lean side as a hint; 2-5 threads sending 1-6 payloads "
              "each to one peer at the same time (8 B..20 KB cheap; 64-128 KiB with a 4 KiB SO_SNDBUF, where unserialised writers "
              "interleave; thorough: 256 KiB-1 MiB from up to 4 threads with default buffers), judged by multiset equality and "
-             "per-thread order. distinct = sha256 of the op list; "
+             "per-thread order; key replacement on the live session (register_peer_key at both ends) while the readers are idle or "
+             "right after a send / a burst, 1-4 times per case, followed by sends in both directions. distinct = sha256 of the op list; "
              "non-trivial = at least one payload delivered and compared, or a send refused, or a session ended, or a frame captured",
         trusted_base=["kernel TCP (loopback), std::thread scheduling, std::random_device (nonces taken from the implementation as hints)",
                       "marker-frame quiescence: a drain sends one more frame through the code under test and waits (bounded 30 s) for it",
